@@ -1,5 +1,6 @@
 import Driver.Common
 import FianoModel.Nvram.Model
+import FianoModel.Nvram.Ops
 import FianoModel.Nvram.Spec
 import FianoModel.Nvram.SpecNested
 import FianoModel.Nvram.Checksum
@@ -42,22 +43,25 @@ def showStoreDeep (pol : Nat) : Nat → Store → String
 def showErr : Err → String
   | .parse => "err" | .asm => "err" | .panic => "panic" | .fuel => "fuel"
 
-/-- run the ops on the in-memory store; one result per op; stops at the first failure -/
-def runOps (pol : Nat) (sh : Store → String) : Store → List String → List String → Option (List String)
-  | _, [], acc => some acc.reverse
-  | s, op :: ops, acc =>
-    let step (r : Except Err Store) : Option (List String) :=
+/-- an operation word of the wire format -/
+def parseOp (op : String) : Option StOp :=
+  if op = "asm" then some .asm
+  else if op = "compact" then some .compact
+  else if op = "reparse" then some .reparse
+  else if op.startsWith "inv:" then (parseHex (dropS op 4)).map StOp.inv
+  else none
+
+/-- run the ops on the in-memory store (`Nvram.runOps`, the function the op-sequence theorems of
+    Props/C10.lean are about); one result per op; stops at the first failure -/
+def runOps (pol : Nat) (sh : Store → String) (s : Store) (ops : List String) (acc : List String) :
+    Option (List String) :=
+  match ops.mapM parseOp with
+  | none => none
+  | some ops =>
+    some (acc.reverse ++ (Nvram.runOps pol s ops).map (fun r =>
       match r with
-      | .ok s' => runOps pol sh s' ops (sh s' :: acc)
-      | .error e => some ((showErr e :: acc).reverse)
-    if op = "asm" then step (asmStore pol (depthFuel s) s)
-    else if op = "compact" then step (compact pol (depthFuel s) s)
-    else if op = "reparse" then step (parseStore pol s.buf)
-    else if op.startsWith "inv:" then
-      match parseHex (dropS op 4) with
-      | some n => step (.ok (invalidate n s))
-      | none => none
-    else none
+      | .ok s' => sh s'
+      | .error e => showErr e))
 
 /-! recipes -/
 
@@ -101,12 +105,20 @@ def parseRecipeN : Nat → String → Option NStore
         | some b => (parseRecipeN fuel (bytesToString b)).map NValue.store
         | none => none
       else (parseHex v).map NValue.raw
+    -- a store value in an entry WITH an extended header: fiano reads content + extended header as the
+    -- store; in the grammar that is a raw value (the bytes of the store), judged by `notStore`
+    let extRaw (v : NValue) (x : Option Ext) : NValue :=
+      match v, x with
+      | .store s, some _ => .raw s.ser
+      | v, _ => v
     let parseEntry (e : String) : Option NEntry :=
       match e.splitOn "," with
       | ["v", f, g, n, v, x, nx] => do
-        pure (NEntry.var (← f.toNat?) (← parseGuidRef g) (← parseVarName n) (← parseValue v) (← parseExt x) (← parseNext nx))
+        let x ← parseExt x
+        pure (NEntry.var (← f.toNat?) (← parseGuidRef g) (← parseVarName n) (extRaw (← parseValue v) x) x (← parseNext nx))
       | ["d", f, v, x, nx] => do
-        pure (NEntry.data (← f.toNat?) (← parseValue v) (← parseExt x) (← parseNext nx))
+        let x ← parseExt x
+        pure (NEntry.data (← f.toNat?) (extRaw (← parseValue v) x) x (← parseNext nx))
       | ["x", a, nx, b] => do
         pure (NEntry.dead (← a.toNat?) (← nx.toNat?) (← parseHex b))
       | _ => none
